@@ -625,12 +625,14 @@ pub struct Fixes {
     pub wild: bool,
 }
 
-pub const CLASSES: [(&str, Fixes); 5] = [
-    ("apex-nodata-without-matching-nsec3", Fixes { apex: true, wrap: false, optout: false, deleg: false, wild: false }),
-    ("wraparound-nsec3-covers-every-hash", Fixes { apex: false, wrap: true, optout: false, deleg: false, wild: false }),
-    ("wildcard-answer-accepted-on-qname-nsec3", Fixes { apex: false, wrap: false, optout: false, deleg: false, wild: true }),
-    ("optout-next-closer-accepted-as-secure", Fixes { apex: false, wrap: false, optout: true, deleg: false, wild: false }),
-    ("ancestor-delegation-nsec3-accepted", Fixes { apex: false, wrap: false, optout: false, deleg: true, wild: false }),
+/// the code as it is now: /repo e7e2ac8 (apex), cd83193 (wild), 6960cfe (deleg) applied;
+/// the wrap-around comparison and the opt-out handling are unchanged (open findings)
+pub const CURRENT: Fixes = Fixes { apex: true, wrap: false, optout: false, deleg: true, wild: true };
+
+/// open finding classes: the repair (on top of `CURRENT`) that flips the verdict
+pub const CLASSES: [(&str, Fixes); 2] = [
+    ("wraparound-nsec3-covers-every-hash", Fixes { apex: true, wrap: true, optout: false, deleg: true, wild: true }),
+    ("optout-next-closer-accepted-as-secure", Fixes { apex: true, wrap: false, optout: true, deleg: true, wild: true }),
 ];
 const ALL_FIXED: Fixes = Fixes { apex: true, wrap: true, optout: true, deleg: true, wild: true };
 
@@ -828,7 +830,7 @@ pub fn ref_verify(fx: Fixes, c: &Case) -> &'static str {
 
 /// class token of a case (mirrors `Nsec3.classOf`)
 pub fn class_of(c: &Case) -> String {
-    if ref_verify(Fixes::default(), c) != "secure" {
+    if ref_verify(CURRENT, c) != "secure" {
         return "-".into();
     }
     for (name, fx) in CLASSES {
@@ -836,22 +838,8 @@ pub fn class_of(c: &Case) -> String {
             return name.into();
         }
     }
-    for i in 0..CLASSES.len() {
-        for j in i + 1..CLASSES.len() {
-            let (a, b_) = (CLASSES[i].1, CLASSES[j].1);
-            let fx = Fixes {
-                apex: a.apex || b_.apex,
-                wrap: a.wrap || b_.wrap,
-                optout: a.optout || b_.optout,
-                deleg: a.deleg || b_.deleg,
-                wild: a.wild || b_.wild,
-            };
-            if ref_verify(fx, c) != "secure" {
-                return CLASSES[i].0.into();
-            }
-        }
-    }
-    if ref_verify(ALL_FIXED, c) != "secure" { "multi".into() } else { "-".into() }
+    // only both open repairs together flip it: attributed to the first
+    if ref_verify(ALL_FIXED, c) != "secure" { CLASSES[0].0.into() } else { "-".into() }
 }
 
 // ------------------------------------------------------------------ exec
@@ -1437,30 +1425,38 @@ pub fn run(o: &Opts, rec: &mut Recorder) {
 
 // ------------------------------------------------------------------ end to end (server proofs)
 //
-// An NSEC3-signed `InMemoryZoneHandler` behind a `Catalog` answers every query in/around the zone; the
-// NSEC3 records, SOA name, rcode and answers of each response are handed to `verify_nsec3` exactly as
-// `DnssecDnsHandle::verify_response` does (signatures are not re-checked here: C06/C07).  Completeness:
-// every negative or wildcard response must come back Secure.  Each response is also recorded as an
-// ordinary `v` case, so the model and the soundness oracle see the server's own proofs as well.
+// An NSEC3-signed `InMemoryZoneHandler` (real Ed25519 key) behind a `Catalog` answers every query
+// in/around the zone, twice: raw (DO set) and through the real validator `DnssecDnsHandle` whose trust
+// anchor is the zone key.  Completeness: the validator must accept (Ok) what the server sends —
+// negative and wildcard responses (the property's clause) and, recorded under its own class, plain
+// positive answers.  The NSEC3 records / SOA name / rcode / answers of each raw response are also handed
+// to `verify_nsec3` exactly as `verify_response` selects them and recorded as an ordinary `v` case, so
+// the model and the soundness oracle see the server's own proofs as well.
 mod e2e {
+    use std::net::SocketAddr;
+    use std::pin::Pin;
     use std::sync::{Arc, Mutex};
     use std::time::Duration;
 
-    use hickory_net::runtime::TokioTime;
-    use hickory_net::xfer::Protocol;
+    use futures_util::stream::{self, Stream, StreamExt};
+    use hickory_net::dnssec::DnssecDnsHandle;
+    use hickory_net::runtime::{TokioRuntimeProvider, TokioTime};
+    use hickory_net::xfer::{DnsHandle, Protocol};
     use hickory_net::NetError;
     use hickory_proto::dnssec::crypto::Ed25519SigningKey;
     use hickory_proto::dnssec::rdata::{DNSKEY, DS};
-    use hickory_proto::dnssec::{DigestType, DnssecSigner, SigningKey};
-    use hickory_proto::op::{Edns, Message};
+    use hickory_proto::dnssec::{DigestType, DnssecSigner, SigningKey, TrustAnchors};
+    use hickory_proto::op::{DnsRequest, DnsRequestOptions, DnsResponse};
     use hickory_proto::rr::rdata::{CNAME, NS, SOA, TXT};
-    use hickory_proto::serialize::binary::{BinDecodable, BinEncodable, BinEncoder};
+    use hickory_proto::serialize::binary::{BinEncodable, BinEncoder};
     use hickory_server::dnssec::NxProofKind;
     use hickory_server::server::{Request, RequestHandler, ResponseHandler, ResponseInfo};
     use hickory_server::store::in_memory::InMemoryZoneHandler;
     use hickory_server::zone_handler::{AxfrPolicy, Catalog, MessageResponse, ZoneType};
 
     use super::*;
+
+    pub const CL_POSITIVE: &str = "positive-answer-rejected-because-of-attached-qname-nsec3";
 
     #[derive(Clone, Default)]
     struct Capture(Arc<Mutex<Vec<u8>>>);
@@ -1486,22 +1482,46 @@ mod e2e {
         }
     }
 
-    fn rdata_for(t: u16, apex: &Name) -> Option<RData> {
+    pub struct Srv {
+        catalog: Arc<Catalog>,
+        anchors: Arc<TrustAnchors>,
+    }
+
+    /// in-process `DnsHandle`: one request → the catalog's response
+    #[derive(Clone)]
+    struct CatalogHandle(Arc<Catalog>);
+
+    impl DnsHandle for CatalogHandle {
+        type Response = Pin<Box<dyn Stream<Item = Result<DnsResponse, NetError>> + Send>>;
+        type Runtime = TokioRuntimeProvider;
+
+        fn send(&self, request: DnsRequest) -> Self::Response {
+            let catalog = self.0.clone();
+            Box::pin(stream::once(async move {
+                let bytes = request.to_bytes().map_err(|e| NetError::from(format!("encode: {e}")))?;
+                let addr: SocketAddr = "127.0.0.1:5353".parse().unwrap();
+                let req = Request::from_bytes(bytes, addr, Protocol::Tcp).map_err(|e| NetError::from(format!("request: {e}")))?;
+                let cap = Capture::default();
+                catalog.handle_request::<_, TokioTime>(&req, cap.clone()).await;
+                let buf = cap.0.lock().unwrap().clone();
+                DnsResponse::from_buffer(buf).map_err(|e| NetError::from(format!("decode: {e}")))
+            }))
+        }
+    }
+
+    fn rdata_for(t: u16) -> Option<RData> {
         Some(match t {
             T_A => RData::A(A::new(192, 0, 2, 1)),
             T_TXT => RData::TXT(TXT::new(vec!["x".to_string()])),
             T_NS => RData::NS(NS(Name::from_ascii("ns.elsewhere.").unwrap())),
             T_CNAME => RData::CNAME(CNAME(Name::from_ascii("target.elsewhere.").unwrap())),
             T_DS => RData::DNSSEC(DNSSECRData::DS(DS::new(1, Algorithm::ED25519, DigestType::SHA256, vec![7; 32]))),
-            _ => {
-                let _ = apex;
-                return None;
-            }
+            _ => return None,
         })
     }
 
-    fn build(z: &ZoneSpec) -> Option<Catalog> {
-        let mut h = InMemoryZoneHandler::<hickory_net::runtime::TokioRuntimeProvider>::empty(
+    fn build(z: &ZoneSpec) -> Option<Srv> {
+        let mut h = InMemoryZoneHandler::<TokioRuntimeProvider>::empty(
             z.apex.clone(),
             ZoneType::Primary,
             AxfrPolicy::Deny,
@@ -1521,34 +1541,41 @@ mod e2e {
                 continue;
             }
             for t in ts {
-                if let Some(rd) = rdata_for(*t, &z.apex) {
+                if let Some(rd) = rdata_for(*t) {
                     h.upsert_mut(Record::from_rdata(name_of(n), 300, rd), 0);
                 }
             }
         }
         let key = Ed25519SigningKey::from_pkcs8(&Ed25519SigningKey::generate_pkcs8().ok()?).ok()?;
+        let public = key.to_public_key().ok()?;
         let key: Box<dyn SigningKey> = Box::new(key);
-        let dnskey = DNSKEY::from_key(&key.to_public_key().ok()?);
-        h.add_zone_signing_key_mut(DnssecSigner::new(dnskey, key, z.apex.clone(), Duration::from_secs(86400))).ok()?;
+        h.add_zone_signing_key_mut(DnssecSigner::new(DNSKEY::from_key(&public), key, z.apex.clone(), Duration::from_secs(86400))).ok()?;
         h.secure_zone_mut().ok()?;
         let mut catalog = Catalog::new();
         catalog.upsert(z.apex.clone().into(), vec![Arc::new(h)]);
-        Some(catalog)
+        let mut anchors = TrustAnchors::empty();
+        anchors.insert(&public);
+        Some(Srv { catalog: Arc::new(catalog), anchors: Arc::new(anchors) })
     }
 
-    fn ask(rt: &tokio::runtime::Runtime, catalog: &Catalog, q: &Name, t: u16) -> Option<Message> {
-        let mut m = Message::query();
-        m.add_query(Query::new(q.clone(), RecordType::from(t)));
-        let mut edns = Edns::new();
-        edns.set_dnssec_ok(true);
-        edns.set_max_payload(4096);
-        m.set_edns(edns);
-        let bytes = m.to_bytes().ok()?;
-        let req = Request::from_bytes(bytes, ([127, 0, 0, 1], 5353).into(), Protocol::Tcp).ok()?;
-        let cap = Capture::default();
-        rt.block_on(catalog.handle_request::<_, TokioTime>(&req, cap.clone()));
-        let buf = cap.0.lock().unwrap().clone();
-        Message::from_bytes(&buf).ok()
+    /// (raw response with DO set, verdict of the validator: Ok / error text)
+    fn ask(rt: &tokio::runtime::Runtime, srv: &Srv, q: &Name, t: u16) -> (Option<DnsResponse>, Result<DnsResponse, String>) {
+        rt.block_on(async {
+            let inner = CatalogHandle(srv.catalog.clone());
+            let mut opts = DnsRequestOptions::default();
+            opts.use_edns = true;
+            opts.edns_set_dnssec_ok = true;
+            opts.recursion_desired = false;
+            let query = Query::new(q.clone(), RecordType::from(t));
+            let raw = inner.send(DnsRequest::from_query(query.clone(), opts)).next().await.and_then(|r| r.ok());
+            let secure = DnssecDnsHandle::with_trust_anchor(inner, srv.anchors.clone());
+            let validated = match secure.send(DnsRequest::from_query(query, opts)).next().await {
+                Some(Ok(r)) => Ok(r),
+                Some(Err(e)) => Err(format!("{e}")),
+                None => Err("no result".into()),
+            };
+            (raw, validated)
+        })
     }
 
     pub fn run(o: &Opts, rec: &mut Recorder) {
@@ -1584,14 +1611,14 @@ mod e2e {
             if zi == 1 {
                 z.opt_out = true;
             }
-            let Some(catalog) = build(&z) else {
+            let Some(srv) = build(&z) else {
                 rec.stat("e2e.zone-build-failed");
                 continue;
             };
             rec.stat("e2e.zones");
             for q in &queries {
                 for t in [T_A, T_DS, T_TXT] {
-                    check_one(rec, &rt, &catalog, &z, q, t);
+                    check_one(rec, &rt, &srv, &z, q, t);
                 }
             }
         }
@@ -1622,111 +1649,135 @@ mod e2e {
         let qt: u16 = t.get(7 + 2 * n)?.parse().ok()?;
         let z = ZoneSpec { apex, names, salt, iterations, opt_out };
         let rt = tokio::runtime::Builder::new_current_thread().enable_all().build().ok()?;
-        let catalog = build(&z)?;
-        check_one(rec, &rt, &catalog, &z, &q, qt);
+        let srv = build(&z)?;
+        check_one(rec, &rt, &srv, &z, &q, qt);
         Some(())
     }
 
-    fn check_one(rec: &mut Recorder, rt: &tokio::runtime::Runtime, catalog: &Catalog, z: &ZoneSpec, q: &Name, t: u16) {
-        {
-                    let Some(resp) = ask(rt, catalog, q, t) else {
-                        rec.stat("e2e.no-response");
-                        return;
-                    };
-                    let nsec3s: Vec<RecIn> = resp
-                        .authorities
-                        .iter()
-                        .filter_map(|rr| match &rr.data {
-                            RData::DNSSEC(DNSSECRData::NSEC3(n)) => Some(RecIn {
-                                owner: rr.name.clone(),
-                                next: n.next_hashed_owner_name().to_vec(),
-                                opt_out: n.opt_out(),
-                                iterations: n.iterations(),
-                                salt: n.salt().to_vec(),
-                                types: {
-                                    let mut v: Vec<u16> = n.type_bit_maps().map(u16::from).collect();
-                                    v.sort();
-                                    v
-                                },
-                            }),
-                            _ => None,
-                        })
-                        .collect();
-                    let rcode: u16 = resp.metadata.response_code.into();
-                    if nsec3s.is_empty() {
-                        rec.stat(&format!("e2e.response-without-nsec3.rcode{rcode}.answers{}", resp.answers.len().min(1)));
-                        if resp.answers.is_empty() && (rcode == 0 || rcode == 3) && !resp.authorities.iter().any(|rr| rr.record_type() == RecordType::NS) {
-                            let idx = rec.case(format!("e2e {} {} {}", name_tok(q), t, describe_spec(&z)), "~".into());
-                            rec.impl_only += 1;
-                            rec.fail(idx, format!("server sent a negative response (rcode {rcode}) without any NSEC3 record"), "");
-                        }
-                        return;
-                    }
-                    let soa = resp.authorities.iter().find(|rr| rr.record_type() == RecordType::SOA).map(|rr| rr.name.clone());
-                    let wl = resp.answers.iter().find_map(|rr| match &rr.data {
-                        RData::DNSSEC(DNSSECRData::RRSIG(s)) => Some(s.input().num_labels),
-                        _ => None,
-                    });
-                    let c = Case { q: q.clone(), qtype: t, soa, rcode, wl, soft: 100, hard: 500, recs: nsec3s };
-                    // the real call shape: answers as sent by the server
-                    let datas: Vec<NSEC3> = c.recs.iter().map(|r| NSEC3::new(Nsec3HashAlgorithm::SHA1, r.opt_out, r.iterations, r.salt.clone(), r.next.clone(), r.types.iter().map(|t| RecordType::from(*t)))).collect();
-                    let pairs: Vec<(&Name, &NSEC3)> = c.recs.iter().map(|r| &r.owner).zip(datas.iter()).collect();
-                    let direct = verify_nsec3(&Query::new(q.clone(), RecordType::from(t)), c.soa.as_ref(), resp.metadata.response_code, &resp.answers, &pairs, 100, 500);
-                    let out = run_case(&c, rec, true, "e2e");
-                    rec.stat(&format!("e2e.server-proof.{}", proof_str(direct)));
-                    if proof_str(direct) != out.proof {
-                        if let Some(idx) = out.idx {
-                            rec.fail(idx, format!("verify_nsec3 on the server's answers ({}) differs from the case-line call ({})", proof_str(direct), out.proof), "");
-                        }
-                    }
-                    // referrals (NS in authority, no SOA) are not denial-of-existence responses
-                    let referral = c.soa.is_none() && resp.answers.is_empty();
-                    // positive answers that are not wildcard expansions need no denial proof: outside the
-                    // property (the server attaches QNAME's NSEC3 to them all the same; counted)
-                    let plain_positive = !resp.answers.is_empty() && wl.map(|k| k >= q.num_labels()).unwrap_or(true);
-                    if plain_positive {
-                        rec.stat(&format!("e2e.positive-answer-carrying-nsec3.{}", proof_str(direct)));
-                        return;
-                    }
-                    // what RFC 1034 §4.3.2 / 4592 say the zone answers, computed from the zone data
-                    let zone_view: Zone = spec_view(&z);
-                    let want = kind(&zone_view, &lbls(&z.apex), &lbls(q), t);
-                    let agrees = match want {
-                        Kind::NxDomain => rcode == 3,
-                        Kind::NoData | Kind::WildNoData => rcode == 0 && resp.answers.is_empty(),
-                        Kind::WildAnswer(_) => rcode == 0 && !resp.answers.is_empty(),
-                        Kind::Answer | Kind::Referral => true,
-                    };
-                    if !agrees {
-                        // the response itself is not the zone's answer (server lookup, C10): its proof
-                        // cannot be expected to verify
-                        rec.stat(&format!("e2e.server-response-contradicts-zone.want-{want:?}.rcode{rcode}"));
-                        return;
-                    }
-                    // opt-out zones: an empty non-terminal that exists only because of insecure delegations has
-                    // no NSEC3 (RFC 5155 §7.1); its NODATA cannot be proved Secure by anyone (erratum 3441)
-                    let ql = b32(&nsec3_hash(&z.salt, q, z.iterations));
-                    if z.opt_out && want == Kind::NoData && !c.recs.iter().any(|r| owner_label(r) == ql) {
-                        rec.stat("e2e.optout-ent-without-nsec3.not-provable");
-                        return;
-                    }
-                    if direct != Proof::Secure && !referral {
-                        // class from the input: NXDOMAIN answer to a DS query (the server leaves out the
-                        // record covering the wildcard at the closest encloser for QTYPE = DS)
-                        let class = if rcode == 3 && t == T_DS { "server-ds-nxdomain-proof-lacks-wildcard-cover" } else { "" };
-                        let _ = out.idx;
-                        rec.impl_only += 1;
-                        let idx = rec.case(srv_line(&z, q, t), "~".into());
-                        {
-                            rec.fail(
-                                idx,
-                                format!("completeness: the server's own NSEC3 proof for {} type {} (rcode {}, {} answers) is not accepted: {} — zone {}", q, t, rcode, resp.answers.len(), proof_str(direct), describe_spec(&z)),
-                                class,
-                            );
-                        }
-                    } else if referral {
-                        rec.stat("e2e.referral-with-nsec3");
-                    }
+    fn fail_srv(rec: &mut Recorder, z: &ZoneSpec, q: &Name, t: u16, what: String, class: &str) {
+        rec.impl_only += 1;
+        let idx = rec.case(srv_line(z, q, t), "~".into());
+        rec.fail(idx, what, class);
+    }
+
+    fn check_one(rec: &mut Recorder, rt: &tokio::runtime::Runtime, srv: &Srv, z: &ZoneSpec, q: &Name, t: u16) {
+        let (raw, validated) = ask(rt, srv, q, t);
+        let Some(resp) = raw else {
+            rec.stat("e2e.no-response");
+            return;
+        };
+        let nsec3s: Vec<RecIn> = resp
+            .authorities
+            .iter()
+            .filter_map(|rr| match &rr.data {
+                RData::DNSSEC(DNSSECRData::NSEC3(n)) => Some(RecIn {
+                    owner: rr.name.clone(),
+                    next: n.next_hashed_owner_name().to_vec(),
+                    opt_out: n.opt_out(),
+                    iterations: n.iterations(),
+                    salt: n.salt().to_vec(),
+                    types: {
+                        let mut v: Vec<u16> = n.type_bit_maps().map(u16::from).collect();
+                        v.sort();
+                        v
+                    },
+                }),
+                _ => None,
+            })
+            .collect();
+        let rcode: u16 = resp.metadata.response_code.into();
+        let n_answers = resp.answers.len();
+        let soa = resp.authorities.iter().find(|rr| rr.record_type() == RecordType::SOA).map(|rr| rr.name.clone());
+        let wl = resp.answers.iter().find_map(|rr| match &rr.data {
+            RData::DNSSEC(DNSSECRData::RRSIG(s)) => Some(s.input().num_labels),
+            _ => None,
+        });
+        let referral = soa.is_none() && n_answers == 0;
+        let plain_positive = n_answers > 0 && wl.map(|k| k >= q.num_labels()).unwrap_or(true);
+        let vtag = if validated.is_ok() { "accepted" } else { "rejected" };
+        // what RFC 1034 §4.3.2 / 4592 say the zone answers, computed from the zone data
+        let zone_view: Zone = spec_view(z);
+        let want = kind(&zone_view, &lbls(&z.apex), &lbls(q), t);
+
+        // ---- plain positive answers: outside "negative responses", but the validator must not reject them
+        if plain_positive {
+            rec.stat(&format!("e2e.validator.positive.{vtag}.nsec3-attached-{}", !nsec3s.is_empty()));
+            if let Err(e) = &validated {
+                fail_srv(
+                    rec,
+                    z,
+                    q,
+                    t,
+                    format!("completeness: DnssecDnsHandle rejects the server's plain positive answer for {q} type {t} ({} NSEC3 attached): {e} — zone {}", nsec3s.len(), describe_spec(z)),
+                    if nsec3s.is_empty() { "" } else { CL_POSITIVE },
+                );
+            }
+        }
+        if nsec3s.is_empty() {
+            rec.stat(&format!("e2e.response-without-nsec3.rcode{rcode}.answers{}", n_answers.min(1)));
+            if n_answers == 0 && (rcode == 0 || rcode == 3) && !resp.authorities.iter().any(|rr| rr.record_type() == RecordType::NS) {
+                fail_srv(rec, z, q, t, format!("server sent a negative response (rcode {rcode}) without any NSEC3 record"), "");
+            }
+            return;
+        }
+        let c = Case { q: q.clone(), qtype: t, soa, rcode, wl, soft: 100, hard: 500, recs: nsec3s };
+        // the real call shape: answers as sent by the server
+        let datas: Vec<NSEC3> = c.recs.iter().map(|r| NSEC3::new(Nsec3HashAlgorithm::SHA1, r.opt_out, r.iterations, r.salt.clone(), r.next.clone(), r.types.iter().map(|t| RecordType::from(*t)))).collect();
+        let pairs: Vec<(&Name, &NSEC3)> = c.recs.iter().map(|r| &r.owner).zip(datas.iter()).collect();
+        let direct = verify_nsec3(&Query::new(q.clone(), RecordType::from(t)), c.soa.as_ref(), resp.metadata.response_code, &resp.answers, &pairs, 100, 500);
+        let out = run_case(&c, rec, true, "e2e");
+        rec.stat(&format!("e2e.server-proof.{}", proof_str(direct)));
+        if proof_str(direct) != out.proof {
+            if let Some(idx) = out.idx {
+                rec.fail(idx, format!("verify_nsec3 on the server's answers ({}) differs from the case-line call ({})", proof_str(direct), out.proof), "");
+            }
+        }
+        if plain_positive {
+            rec.stat(&format!("e2e.positive-answer-carrying-nsec3.{}", proof_str(direct)));
+            return;
+        }
+        if referral {
+            rec.stat(&format!("e2e.referral-with-nsec3.validator-{vtag}"));
+            return;
+        }
+        let agrees = match want {
+            Kind::NxDomain => rcode == 3,
+            Kind::NoData | Kind::WildNoData => rcode == 0 && n_answers == 0,
+            Kind::WildAnswer(_) => rcode == 0 && n_answers > 0,
+            Kind::Answer | Kind::Referral => true,
+        };
+        if !agrees {
+            // the response itself is not the zone's answer (server lookup, C10): its proof cannot be
+            // expected to verify
+            rec.stat(&format!("e2e.server-response-contradicts-zone.want-{want:?}.rcode{rcode}"));
+            return;
+        }
+        // opt-out zones: an empty non-terminal that exists only because of insecure delegations has no
+        // NSEC3 (RFC 5155 §7.1); its NODATA cannot be proved Secure by anyone (erratum 3441)
+        let ql = b32(&nsec3_hash(&z.salt, q, z.iterations));
+        if z.opt_out && want == Kind::NoData && !c.recs.iter().any(|r| owner_label(r) == ql) {
+            rec.stat("e2e.optout-ent-without-nsec3.not-provable");
+            return;
+        }
+        rec.stat(&format!("e2e.validator.negative-or-wildcard.{vtag}"));
+        if direct != Proof::Secure {
+            fail_srv(
+                rec,
+                z,
+                q,
+                t,
+                format!("completeness: the server's own NSEC3 proof for {} type {} (rcode {}, {} answers) is not accepted by verify_nsec3: {} — zone {}", q, t, rcode, n_answers, proof_str(direct), describe_spec(z)),
+                "",
+            );
+        } else if let Err(e) = &validated {
+            fail_srv(
+                rec,
+                z,
+                q,
+                t,
+                format!("completeness: DnssecDnsHandle rejects the server's response for {} type {} (rcode {}, {} answers) although verify_nsec3 says Secure: {e} — zone {}", q, t, rcode, n_answers, describe_spec(z)),
+                "",
+            );
         }
     }
 
